@@ -71,7 +71,11 @@ func runDownFamily(s *Sim, prop string) {
 	}
 
 	// tasks: 0 control, per downstream a chunk reader and a metadata reader
-	s.NewTasks(1 + 2*nDown)
+	nTasksDown := 1 + 2*nDown
+	if s.RaceMode {
+		nTasksDown += nDown // a second goroutine reading the same stream (the oracles are not judged in race mode)
+	}
+	s.NewTasks(nTasksDown)
 	s.Start(0, y.connectOp())
 	s.Wait()
 	y.Pump()
@@ -169,6 +173,9 @@ func runDownFamily(s *Sim, prop string) {
 			}
 			if s.Idle(mt) {
 				acts = append(acts, Action{Name: fmt.Sprintf("read-meta d%d", i), W: 2, Do: func() { s.Start(mt, y.readMetaOp(h)) }})
+			}
+			if rt2 := 1 + 2*nDown + i; s.RaceMode && s.Idle(rt2) {
+				acts = append(acts, Action{Name: fmt.Sprintf("read-2nd-goroutine d%d", i), W: 6, Do: func() { s.Start(rt2, y.readOp(h)) }})
 			}
 			if closeEarly && s.Idle(0) {
 				acts = append(acts, Action{Name: fmt.Sprintf("close d%d", i), W: 1, Do: func() {
